@@ -100,3 +100,26 @@ fn k_sub_using_drop_unsubscribes() {
   assert!(log.is(&[EV_N | x as u32, EV_T]), "using.drop: trace differs (delivery after the guard was dropped, or teardown not run once)");
   kani::cover!(true, "harness reaches its end");
 }
+
+// An observer that has already ended is not handed to the source.  (merge / zip / amb / take_until ... wire their remaining inputs
+// after the first one may have ended the stream synchronously; an input subscribed for the ended observer would stay subscribed -
+// a hot source would hold it, and the closures of the operators in between, until it next emits.)
+#[kani::proof]
+fn k_sub_inner_subscribe__ended_observer_is_not_handed_to_the_source() {
+  let calls = Log::new();
+  let log = Log::new();
+  let o: Observable<'static, u8> = Observable::create(move |_s: Observer<'static, u8>| calls.push(EV_T));
+  let ob = rec_observer(log);
+  if kani::any() {
+    ob.unsubscribe();
+  } else {
+    ob.complete();
+  }
+  let sb = o.inner_subscribe(ob.clone());
+  assert!(calls.len() == 0, "sub.inner_subscribe.ended: the source was subscribed for an observer that had already ended");
+  assert!(!sb.is_subscribed(), "sub.is_subscribed: a subscription made for an ended observer reports subscribed");
+  let live = rec_observer(log);
+  let _sb2 = o.inner_subscribe(live.clone());
+  assert!(calls.len() == 1, "sub.inner_subscribe: the source was not subscribed exactly once for a live observer");
+  kani::cover!(true, "harness reaches its end");
+}
